@@ -285,3 +285,114 @@ func probeMain(instDir, dagFile string) {
 	b, _ := json.MarshalIndent(out, "", " ")
 	fmt.Println(string(b))
 }
+
+// endPhaseKills: a handful of kill points spread over the end-of-run phase of a
+// trace: right after the last step ended, at the final status write, right
+// after it, at the write of the compacted copy, at the removal of the original,
+// at the sync of the copy.
+func endPhaseKills(lay layout, tr *Trace) []int {
+	last := map[string]int{}
+	endFrom := 1
+	for _, c := range tr.Calls {
+		d := lay.desc(c)
+		last[d] = c.K
+		if fk := lay.fileKind(c.Path); fk == "marker" || fk == "step-log" {
+			endFrom = c.K + 1
+		}
+	}
+	var ks []int
+	add := func(k int) {
+		if k < 1 || k > len(tr.Calls) {
+			return
+		}
+		for _, x := range ks {
+			if x == k {
+				return
+			}
+		}
+		ks = append(ks, k)
+	}
+	add(endFrom)
+	add(last["write(history)"])
+	add(last["write(history)"] + 1)
+	add(last["write(history-compacted)"])
+	add(last["unlink(history)"])
+	add(last["fsync(history-compacted)"])
+	return ks
+}
+
+// watchedRun: an untraced run to completion, watched by a client that keeps
+// asking for the latest status, the history and the run by its id while it is
+// alive; afterwards that client and a fresh one must report the final status
+// that equals the markers (latest, by request id, newest history entry).
+func (hn *harness) watchedRun(g *group, mb member, verbose bool) error {
+	def := g.def
+	in, mdir, skip, err := hn.fresh(g, "watched")
+	if err != nil {
+		return err
+	}
+	defer in.cleanup(mdir)
+	d, err := dag.LoadMetadata(in.dagFile)
+	if err != nil {
+		return err
+	}
+	cmd := exec.Command(hn.tl.bd, "start", "-q", in.dagFile)
+	cmd.Env = in.environ()
+	cmd.Dir = in.dir
+	var stderr bytes.Buffer
+	cmd.Stdout, cmd.Stderr = &stderr, &stderr
+	if err := cmd.Start(); err != nil {
+		return fmt.Errorf("cannot start the binary: %v", err)
+	}
+	proc := make(chan error, 1)
+	go func() { proc <- cmd.Wait() }()
+	ll := in.client()
+	rounds := 0
+	var perr error
+	deadline := time.After(watchdog)
+wait:
+	for {
+		select {
+		case perr = <-proc:
+			break wait
+		case <-deadline:
+			_ = cmd.Process.Kill()
+			<-proc
+			return fmt.Errorf("watchdog: an untraced run of %s did not end within %s", def.Name, watchdog)
+		default:
+		}
+		if runs := in.runsExcept(skip); len(runs) == 1 && runs[0].last() != nil {
+			for _, op := range []string{"latest", "history1", "byRequestID", "status"} {
+				_ = doRead(ll, d, def.Name, op, runs[0].last().RequestID)
+			}
+			rounds++
+		}
+		time.Sleep(5 * time.Millisecond)
+	}
+	rr := &runResult{stderr: stderr.String()}
+	if rr.exit, err = exitCode(perr); err != nil {
+		return err
+	}
+	hn.res.Evaluations++
+	hn.res.Count("watched_runs", 1)
+	hn.res.Count("watched_runs_read_rounds_while_alive", int64(rounds))
+	hn.res.Nontrivial(vlib.Hash("watched-run", def.Name))
+	m := readMarkers(in.markers)
+	fs := hn.finalCheck(in, def, skip, rr, m, "after an untraced run watched by a long-lived client", ll)
+	if verbose {
+		fmt.Printf("DAG %s (%s): watched run exit %d, %d read rounds while alive, markers {%s}\n", def.Name, def.About, rr.exit, rounds, vlib.Short(m.String(), 300))
+	}
+	seen := map[string]bool{}
+	for _, f := range fs {
+		sig := "C08/" + f.Kind
+		if verbose {
+			fmt.Printf("  FINDING %s: %s\n", sig, vlib.Short(f.Detail, 600))
+		}
+		if seen[sig] {
+			continue
+		}
+		seen[sig] = true
+		hn.res.Violate(sig, fmt.Sprintf("DAG %s (%s): %s", def.Name, def.About, vlib.Short(f.Detail, 1500)), mb)
+	}
+	return nil
+}
